@@ -3,22 +3,37 @@ C05 — lines end only at CRLF; the lines acted on do not depend on TCP segmenta
 Reader part (lib/netio.c).  Property theorems only; lemmas in Lemmas/Netio.lean.
 -/
 import QsmtpModel.Lemmas.Netio
+import QsmtpModel.Lemmas.NetioFull
 
 namespace QsmtpModel.Props.C05
 open QsmtpModel QsmtpModel.Netio
 
-/-- the successfully read lines among the results -/
-def linesOf : List Rd → List (List Byte)
-  | [] => []
-  | .line l :: rs => l :: linesOf rs
-  | _ :: rs => linesOf rs
+/-- **The reader refines its specification.**  `goodLines` (Spec/Lines.lean) is a function of the
+byte stream alone: it never mentions reads, cuts or buffers.  For every stream, every cut schedule
+and both modes, the lines `net_read()` hands out, call after call until the connection ends, are
+exactly `goodLines` of the stream.  (`linesOf` keeps the `.line` results.) -/
+theorem reader_refines_goodLines (s : List Byte) (cuts : List Nat) (fatal : Bool) (fuel : Nat)
+    (hf : s.length < fuel) :
+    linesOf (readAll fatal [] { rest := s, cuts := cuts } fuel) = goodLines s := by
+  have := readAll_refines fatal fuel [] { rest := s, cuts := cuts } (by decide) (by simpa using hf)
+  simpa using this
+
+/-- The same from any look-ahead state the reader can be in (fewer than `win` buffered bytes). -/
+theorem reader_refines_goodLines_from (inn : List Byte) (src : Src) (fatal : Bool) (fuel : Nat)
+    (hinn : inn.length < win) (hf : (inn ++ src.rest).length < fuel) :
+    linesOf (readAll fatal inn src fuel) = goodLines (inn ++ src.rest) :=
+  readAll_refines fatal fuel inn src hinn hf
 
 /-- **As given (reader clause):** the sequence of lines the reader hands out is a function of the
 byte stream alone, for all streams and all ways of cutting them into reads. -/
-def reader_chunk_independent_full : Prop :=
-  ∀ (s : List Byte) (c1 c2 : List Nat) (fatal : Bool),
+theorem reader_chunk_independent_full (s : List Byte) (c1 c2 : List Nat) (fatal : Bool) :
     linesOf (readAll fatal [] { rest := s, cuts := c1 } (2 * s.length + 4))
-      = linesOf (readAll fatal [] { rest := s, cuts := c2 } (2 * s.length + 4))
+      = linesOf (readAll fatal [] { rest := s, cuts := c2 } (2 * s.length + 4)) := by
+  rw [reader_refines_goodLines s c1 fatal _ (by omega), reader_refines_goodLines s c2 fatal _ (by omega)]
+
+/-- not vacuous: a stream with a stray LF, a stray CR and two good lines; the spec keeps the good ones -/
+example : goodLines [97, 13, 10, 98, 10, 99, 13, 10] = [[97], [99]] := by decide
+example : linesOf (readAll false [] { rest := [97, 13, 10, 98, 10, 99, 13, 10], cuts := [1, 2, 1] } 20) = [[97], [99]] := by decide
 
 /-- A line end is recognised as valid only at a CRLF that follows a CR/LF-free prefix. -/
 theorem findEol_valid_spec (b : List Byte) (p : Nat) (h : findEol b = (some p, true)) :
@@ -36,9 +51,9 @@ theorem findEol_valid_append (b x : List Byte) (p : Nat) (h : findEol b = (some 
 /-- **Proved part of the reader clause.** For every stream made of well-formed lines (no CR/LF
 inside, at most `bufSize - 3` = 999 octets, each ended by CRLF) and *every* cut schedule, the
 reader returns exactly those lines, in order, and then reports the end of the connection.
-What is missing for `reader_chunk_independent_full`: streams with stray CR/LF or over-long lines
-(there the number of *error* results legitimately depends on the cuts; equality of the accepted
-lines is checked differentially over all cuts of all short streams, see tools/props/c05.py). -/
+(Kept as the readable special case; `reader_chunk_independent_full` above covers all streams:
+with stray CR/LF or over-long lines the number of *error* results legitimately depends on the cuts,
+the accepted lines do not.) -/
 theorem reader_chunk_independent_partial (fatal : Bool) (ls : List (List Byte))
     (hwf : ∀ l ∈ ls, WfLine l) (cuts : List Nat) (fuel : Nat) (hf : ls.length < fuel) :
     readAll fatal [] { rest := wire ls, cuts := cuts } fuel = ls.map Rd.line ++ [endMarker fatal] :=
